@@ -5,6 +5,7 @@ import (
 	"errors"
 	"fmt"
 	"io"
+	"math"
 )
 
 // HeaderHash
@@ -836,28 +837,28 @@ func (r *RefineLoad) Decode(d *Decoder) error {
 
 	r.GasUsed = Gas(gasUsed)
 
-	imports, err := d.DecodeInteger()
+	imports, err := d.DecodeIntegerMax(math.MaxUint16)
 	if err != nil {
 		return err
 	}
 
 	r.Imports = U16(imports)
 
-	extrinsicCount, err := d.DecodeInteger()
+	extrinsicCount, err := d.DecodeIntegerMax(math.MaxUint16)
 	if err != nil {
 		return err
 	}
 
 	r.ExtrinsicCount = U16(extrinsicCount)
 
-	extrinsicSize, err := d.DecodeInteger()
+	extrinsicSize, err := d.DecodeIntegerMax(math.MaxUint32)
 	if err != nil {
 		return err
 	}
 
 	r.ExtrinsicSize = U32(extrinsicSize)
 
-	exports, err := d.DecodeInteger()
+	exports, err := d.DecodeIntegerMax(math.MaxUint16)
 	if err != nil {
 		return err
 	}
@@ -915,7 +916,7 @@ func (w *WorkReport) Decode(d *Decoder) error {
 
 	// Work report core index is compact
 	// https://github.com/davxy/jam-test-vectors/commit/fed98559dabaa7058d7f9d83cb8c9353bd78d544
-	coreIndex, err := d.DecodeInteger()
+	coreIndex, err := d.DecodeIntegerMax(math.MaxUint16)
 	if err != nil {
 		return err
 	}
@@ -1628,7 +1629,7 @@ func (c *CoreActivityRecord) Decode(d *Decoder) error {
 	var err error
 
 	cLog(Cyan, "Decoding DALoad")
-	daLoad, err := d.DecodeInteger()
+	daLoad, err := d.DecodeIntegerMax(math.MaxUint32)
 	if err != nil {
 		return err
 	}
@@ -1636,7 +1637,7 @@ func (c *CoreActivityRecord) Decode(d *Decoder) error {
 	cLog(Yellow, "DALoad: %v", c.DALoad)
 
 	cLog(Cyan, "Decoding Popularity")
-	popularity, err := d.DecodeInteger()
+	popularity, err := d.DecodeIntegerMax(math.MaxUint16)
 	if err != nil {
 		return err
 	}
@@ -1644,7 +1645,7 @@ func (c *CoreActivityRecord) Decode(d *Decoder) error {
 	cLog(Yellow, "Popularity: %v", c.Popularity)
 
 	cLog(Cyan, "Decoding Imports")
-	imports, err := d.DecodeInteger()
+	imports, err := d.DecodeIntegerMax(math.MaxUint16)
 	if err != nil {
 		return err
 	}
@@ -1653,7 +1654,7 @@ func (c *CoreActivityRecord) Decode(d *Decoder) error {
 
 	// x
 	cLog(Cyan, "Decoding ExtrinsicCount")
-	extrinsicCount, err := d.DecodeInteger()
+	extrinsicCount, err := d.DecodeIntegerMax(math.MaxUint16)
 	if err != nil {
 		return err
 	}
@@ -1662,7 +1663,7 @@ func (c *CoreActivityRecord) Decode(d *Decoder) error {
 
 	// z
 	cLog(Cyan, "Decoding ExtrinsicSize")
-	extrinsicSize, err := d.DecodeInteger()
+	extrinsicSize, err := d.DecodeIntegerMax(math.MaxUint32)
 	if err != nil {
 		return err
 	}
@@ -1670,7 +1671,7 @@ func (c *CoreActivityRecord) Decode(d *Decoder) error {
 	cLog(Yellow, "ExtrinsicSize: %v", c.ExtrinsicSize)
 
 	cLog(Cyan, "Decoding Exports")
-	exports, err := d.DecodeInteger()
+	exports, err := d.DecodeIntegerMax(math.MaxUint16)
 	if err != nil {
 		return err
 	}
@@ -1678,7 +1679,7 @@ func (c *CoreActivityRecord) Decode(d *Decoder) error {
 	cLog(Yellow, "Exports: %v", c.Exports)
 
 	cLog(Cyan, "Decoding AccumulateCount")
-	bundleSize, err := d.DecodeInteger()
+	bundleSize, err := d.DecodeIntegerMax(math.MaxUint32)
 	if err != nil {
 		return err
 	}
@@ -1722,7 +1723,7 @@ func (s *ServiceActivityRecord) Decode(d *Decoder) error {
 	var err error
 
 	cLog(Cyan, "Decoding ProvidedCount")
-	providedCount, err := d.DecodeInteger()
+	providedCount, err := d.DecodeIntegerMax(math.MaxUint16)
 	if err != nil {
 		return err
 	}
@@ -1730,7 +1731,7 @@ func (s *ServiceActivityRecord) Decode(d *Decoder) error {
 	cLog(Yellow, "ProvidedCount: %v", s.ProvidedCount)
 
 	cLog(Cyan, "Decoding ProvidedSize")
-	providedSize, err := d.DecodeInteger()
+	providedSize, err := d.DecodeIntegerMax(math.MaxUint32)
 	if err != nil {
 		return err
 	}
@@ -1738,7 +1739,7 @@ func (s *ServiceActivityRecord) Decode(d *Decoder) error {
 	cLog(Yellow, "ProvidedSize: %v", s.ProvidedSize)
 
 	cLog(Cyan, "Decoding RefinementCount")
-	refinementCount, err := d.DecodeInteger()
+	refinementCount, err := d.DecodeIntegerMax(math.MaxUint32)
 	if err != nil {
 		return err
 	}
@@ -1754,7 +1755,7 @@ func (s *ServiceActivityRecord) Decode(d *Decoder) error {
 	cLog(Yellow, "RefinementGasUsed: %v", refinementGasUsed)
 
 	cLog(Cyan, "Decoding Imports")
-	imports, err := d.DecodeInteger()
+	imports, err := d.DecodeIntegerMax(math.MaxUint32)
 	if err != nil {
 		return err
 	}
@@ -1762,7 +1763,7 @@ func (s *ServiceActivityRecord) Decode(d *Decoder) error {
 	cLog(Yellow, "Imports: %v", imports)
 
 	cLog(Cyan, "Decoding ExtrinsicCount")
-	extrinsicCount, err := d.DecodeInteger()
+	extrinsicCount, err := d.DecodeIntegerMax(math.MaxUint32)
 	if err != nil {
 		return err
 	}
@@ -1770,7 +1771,7 @@ func (s *ServiceActivityRecord) Decode(d *Decoder) error {
 	cLog(Yellow, "ExtrinsicCount: %v", extrinsicCount)
 
 	cLog(Cyan, "Decoding ExtrinsicSize")
-	extrinsicSize, err := d.DecodeInteger()
+	extrinsicSize, err := d.DecodeIntegerMax(math.MaxUint32)
 	if err != nil {
 		return err
 	}
@@ -1778,7 +1779,7 @@ func (s *ServiceActivityRecord) Decode(d *Decoder) error {
 	cLog(Yellow, "ExtrinsicSize: %v", extrinsicSize)
 
 	cLog(Cyan, "Decoding Exports")
-	exports, err := d.DecodeInteger()
+	exports, err := d.DecodeIntegerMax(math.MaxUint32)
 	if err != nil {
 		return err
 	}
@@ -1786,7 +1787,7 @@ func (s *ServiceActivityRecord) Decode(d *Decoder) error {
 	cLog(Yellow, "Exports: %v", exports)
 
 	cLog(Cyan, "Decoding AccumulateCount")
-	accumulateCount, err := d.DecodeInteger()
+	accumulateCount, err := d.DecodeIntegerMax(math.MaxUint32)
 	if err != nil {
 		return err
 	}
